@@ -25,6 +25,7 @@ from sa.pyfront import Program
 from sa.symex import Interp, flat_guards
 
 RULES = {
+    "R-C01-f": "the dtype ladder that to_array relies on (fit_dtype) contains [min, max] in every leaf - imported from the C19 analysis",
     "R-C01-a": "fit_dtype receives a minimum whenever its argument is a category value that may be negative (to_array, both branches)",
     "R-C01-b": "a store keyed by a mapped value accumulates (membership/get test with a merging sibling branch, or defaultdict(list).append)",
     "R-C01-c": "a caller-chosen common value is not used as a subscript load into a data-keyed plain dict",
@@ -270,6 +271,12 @@ def main(tier):
     rule_c(prog, rep)
     rule_d(prog, rep)
     rule_e(prog, rep)
+    import c19
+    sub = core.Report("C19", level="proof", rules=c19.RULES, tier=tier)
+    c19.analyse(prog, sub, False)
+    for o in sub.obls:
+        if o.rule in ("R-C19-contain", "R-C19-coverage", "R-C19-sign", "R-C19-tree"):
+            rep.add("R-C01-f", o.where, "[%s] %s" % (o.rule, o.construct), o.status, o.detail, True, o.witness)
     return rep.finish()
 
 
